@@ -187,6 +187,8 @@ class X:
         return out
 
     def _bin(self, o, op, refl=False):
+        if getattr(o, "_pyvc_symbolic", False):
+            return NotImplemented
         if isinstance(o, _np.ndarray):
             if refl:
                 return X._arr(o, lambda c: X(op(val(c), self.v)))
